@@ -204,6 +204,13 @@ def tree_obs(o):
     return strip_tree(canon(obj_sx(o)))
 
 
+def all_words_str(o):
+    """whether every word of a tree carries a str (an ill-typed value may have been put into a word as it is)"""
+    if o.is_definition:
+        return all(isinstance(w.value, str) for w in o.words)
+    return all(all_words_str(k) for k in o.objects)
+
+
 def model_tree(t):
     return strip_tree(t)
 
@@ -477,7 +484,7 @@ class ConvRoundTrip(Stream):
         ]
 
     def cases(self, rng, tier):
-        n = 2500 if tier == "quick" else 60000
+        n = 4500 if tier == "quick" else 45000
         keys = list(MODELLED_TYPES)
         for i in range(n):
             tk = keys[i % len(keys)]
@@ -705,7 +712,7 @@ class FloatRoundTrip(Stream):
                 ["float(value_min=0)", ["float", (-1.0).hex()]], ["float", ["int", "3"]], ["float", ["float", "nan"]]]
 
     def cases(self, rng, tier):
-        n = 600 if tier == "quick" else 15000
+        n = 1500 if tier == "quick" else 15000
         for i in range(n):
             ty = self.TYPES[i % len(self.TYPES)]
             r = rng.random()
@@ -1044,6 +1051,11 @@ class ScopeRoundTrip(Stream):
         return [
             # witness of a recorded defect (in the property's domain only while listed open in known_findings.json)
             {"m": [s("s", [d("b", "int")], mult=True)], "src": "s { b = 2 }\n", "mut": [], "kind": "mult", "witness": "clone-template"},
+            # repaired in 51dc715: a disabled object must not disturb the value of its active namesakes (both orders: [1])
+            {"m": [s("c", [d("a", "int", mult=True), d("a", "str", dis=True, dflt="x")])], "src": "", "mut": [], "kind": "regress", "direct": True,
+             "expect": ["scope", "", [["c", ["scope", "c", [["a", ["slist", ["none"], ["num", ["i", "1"]]]]]]]]]},
+            {"m": [s("c", [d("a", "str", dis=True, dflt="x"), d("a", "int", mult=True)])], "src": "", "mut": [], "kind": "regress", "direct": True,
+             "expect": ["scope", "", [["c", ["scope", "c", [["a", ["slist", ["none"], ["num", ["i", "1"]]]]]]]]]},
             {"m": [d("a", "int"), s("s", [d("b", "str"), d("c", "choicem")])], "src": "a = 5\ns.b = x y\n", "mut": [[["s", "b"], ["str", "q\"r"]]], "kind": "nomult"},
             {"m": [d("a", "ints", mult=True), s("s", [d("b", "bool")], mult=True)], "src": "a = 1 2\na = 3\ns { b = False }\ns { b = None }\n",
              "mut": [[["a"], ["mlist", [["list", [["int", "7"]]]]]], [["s"], ["mdup", 0]]], "kind": "mult"},
@@ -1053,7 +1065,7 @@ class ScopeRoundTrip(Stream):
         ]
 
     def cases(self, rng, tier):
-        n = 500 if tier == "quick" else 12000
+        n = 1000 if tier == "quick" else 9000
         for i in range(n):
             r = i % 10
             if r < 4:
@@ -1115,7 +1127,7 @@ class ScopeRoundTrip(Stream):
         self.orc.reset()
         try:
             m = self.fp.parse("\n".join(render_master(case["m"])) + "\n")
-            w = m.fetch(source=self.fp.parse(case["src"]))
+            w = m if case.get("direct") else m.fetch(source=self.fp.parse(case["src"]))
         except vlib.Timeout:
             raise
         except (Exception, SystemExit) as e:  # noqa
@@ -1136,8 +1148,10 @@ class ScopeRoundTrip(Stream):
             def fmt():
                 holder["f"] = m.format(p)
                 return holder["f"]
-            obs["f"] = self.run(fmt, tree_obs)
-            if obs["f"][0] == "ok":
+            obs["f"] = self.run(fmt, lambda t: tree_obs(t) if all_words_str(t) else "word-with-non-str-value")
+            if obs["f"] == ["ok", "word-with-non-str-value"]:
+                side.pop("p2")                # nothing the value model can express: no model request
+            elif obs["f"][0] == "ok":
                 f = holder["f"]
                 side["f"] = obj_sx(f)
                 self.orc.reset()
@@ -1175,6 +1189,8 @@ class ScopeRoundTrip(Stream):
     def model(self, case, replies, o):
         if not replies:
             return o
+        if isinstance(o, dict) and o.get("f") == ["ok", "word-with-non-str-value"]:
+            return "UNMODELLED"
         out = {}
         r = model_res(replies[0], nowords_lines)
         if r == "UNMODELLED":
@@ -1203,6 +1219,9 @@ class ScopeRoundTrip(Stream):
     def prop(self, case, o):
         if not isinstance(o, dict):
             return None
+        if "expect" in case:
+            if o["p"] != ["ok", case["expect"]]:
+                return "extraction returned %r, expected %r" % (o["p"], case["expect"])
         if o["p"][0] != "ok":
             return None
         wit = case.get("witness")
@@ -1229,7 +1248,7 @@ class ScopeRoundTrip(Stream):
         # checked on the implementation only ; masters with .multiple: object route only
         if case.get("witness"):
             return case["witness"] in self.open
-        return case["kind"] in ("nomult", "mult", "float")
+        return case["kind"] in ("nomult", "mult", "float", "regress")
 
     def key(self, case, o):
         return json.dumps([case["m"], case["src"], case["mut"]]) if isinstance(o, dict) else None
